@@ -56,6 +56,8 @@ def faults():
     f['update: body of 3 bytes'] = (S.msg(2, bytes(3)), {'ESTABLISHED': (1, 2)})
     f['update: prefix length 33'] = (upd(GOOD_ATTRS, bytes([33, 10, 0, 0, 0, 0])), {'ESTABLISHED': (3, ANY)})
     f['update: mp_reach for a family not negotiated, truncated'] = (upd(W.origin(0) + W.as_path([65002], True) + W.attr(0x80, 14, bytes([0, 2, 1]))), {'ESTABLISHED': (3, ANY)})
+    # a refusal which quotes what the peer sent must still fit in a message
+    f['update: COMMUNITIES of 4001 octets (not a multiple of 4)'] = (upd(W.origin(0) + W.as_path([65002], True) + W.next_hop('192.0.2.1') + bytes([0xD0, 8]) + struct.pack('!H', 4001) + b'\xff' * 4001, P24), {'ESTABLISHED': (3, ANY)})
     f['route-refresh of 3 bytes'] = (S.msg(5, bytes(3)), {'ESTABLISHED': (1, 2)})
     f['route-refresh with reserved subtype 200'] = (S.msg(5, struct.pack('!HBB', 1, 200, 1)), {'ESTABLISHED': (7, ANY)})
     return f
@@ -105,6 +107,8 @@ def judge(sess, written, expected, inp, done, answered_notification):
     if sess.remote.buffer:
         return {'what': f'{len(sess.remote.buffer)} stray bytes written after the NOTIFICATION', 'input': inp}
     code, sub = written[nots[0]][1][0], written[nots[0]][1][1]
+    if 19 + len(written[nots[0]][1]) > 4096:
+        return {'what': f'the NOTIFICATION written is {19 + len(written[nots[0]][1])} octets long (RFC 4271 4.1: no message is longer than 4096)', 'input': inp}
     if not any(code == c and (x is None or sub == x) for c, x in alternatives):
         return {'what': f'NOTIFICATION {code}/{sub} for an error of class {want} (RFC 4271 section 6)', 'input': inp}
     return None
